@@ -1,36 +1,39 @@
 """C19 — an interactive session behaves like the same declarations in one file.  DESIGN.md §5 C19.
 
 Streams
-  sessions  random REPL sessions (<= 12 entries of 1-3 statements: let / fn / class definitions, calls
-            into earlier definitions, property / method / index sites, assignments, and erroneous
-            entries: syntax errors, undeclared names, re-declarations, runtime errors with a prefix
-            that already ran) fed line by line to `Vm::repl` (harness binary `vh_repl`).
+  sessions  random REPL sessions (<= 14 entries of 1-3 statements: let / fn / class definitions, calls
+            into earlier definitions, property / method / index sites, assignments; functions, methods
+            and closures that CONTAIN inline-cache sites (obj.x, obj.x = v, obj.m(), obj.m(a), l[0],
+            for-in) defined by one entry and called — with receivers of different classes — from any
+            number of later entries; and erroneous entries: syntax errors, undeclared names,
+            re-declarations, entries the compiler proper rejects after it numbered their sites,
+            runtime errors with a prefix that already ran, runtime errors inside earlier functions)
+            fed line by line to `Vm::repl` (harness binary `vh_repl`).
 Judgements (separately)
   implementation-vs-Spec   Spec = `vharness run` on the concatenation of the entries (failed entries
                            dropped, the executed prefix of a runtime-failing entry kept): same printed
                            output, every good entry compiled, exactly the expected entries failed.
   model-vs-implementation  `drv_repl` (Lean `Model/Repl.lean`): per compiled entry and function, the
                            module slots of every DeclareModSym / GetModSym / SetModSym and the inline
-                           cache sites must equal what the compile-log hook recorded.
-Known finding D13 (cache numbering restarts and the cache vectors are replaced per entry) is replayed
-from known_findings/D13-repl-cache-replaced/; its signature — a function or method containing an
-inline-cache site that is defined in one entry and called from a later one — is excluded by
-construction (and re-checked on every generated session by the model's fault detector).
+                           cache sites WITH THEIR CACHE IDS (read back from the encoded bytes the
+                           compile-log hook recorded) must equal the model's.
+corpus/C19/04_d13_cache_replaced.json is the witness of the repaired finding D13 (cache numbering
+restarted and the cache vectors were replaced per entry); it runs first on every run.
 """
 import concurrent.futures
 import json
 import os
 import random
+import re
 import shutil
 import subprocess
+import sys
 
 from .. import common
 
 PROP = "C19"
 LEVEL = "proof"
 DRV = os.path.join(common.LEAN, ".lake", "build", "bin", "drv_repl")
-KF_ID = "D13-repl-cache-replaced"
-KF_DIR = os.path.join(common.VERIF, "known_findings", KF_ID)
 PROMPT = "laythe:> "
 
 # ---------------------------------------------------------------------------------------------
@@ -47,6 +50,10 @@ class Gen:
         self.pclasses = []    # classes with init(x)/get()
         self.insts = []       # instances of pclasses
         self.lists = []
+        self.sfns = []        # (name, "inst" | "list", callees): functions / stored closures WITH inline-cache sites inside
+        self.sclasses = []    # classes whose methods m(q) / n(q) contain inline-cache sites
+        self.smakers = []     # functions returning a closure that contains an inline-cache site
+        self.bias = 1         # weight of the statements that define / call sited functions
         self.counter = 0
         self.all_names = set()
 
@@ -91,6 +98,10 @@ class Gen:
         choices += ["nest"]
         if getattr(self, "makers", None):
             choices += ["ncall", "ncall", "ncall"]
+        if self.pclasses or self.lists:
+            choices += ["sfn", "sclass", "smaker"] * self.bias
+        if (self.sfns or self.sclasses or self.smakers) and (self.insts or self.lists):
+            choices += ["scall", "scall", "scall", "scall2", "swrap", "sclos"] * self.bias
         k = rng.choice(choices)
         return getattr(self, "s_" + k)()
 
@@ -167,10 +178,14 @@ class Gen:
                     script=["g:print", "g:" + k, "i"], calls=[k + "." + m])
 
     def s_pclass(self):
+        """a class with fields x, y (two layouts: the field indices differ between classes) and methods"""
         k = self.fresh("P")
         self.pclasses.append(k)
-        return dict(text="class %s { init(x) { self.x = x; } get() { return self.x; } }" % k, decls=[k], refs=["Object"],
-                    funs=[(k + ".init", []), (k + ".get", [])], script=["s:" + k, "g:Object", "g:" + k], calls=[])
+        init = self.rng.choice(["self.x = x; self.y = x + 100;", "self.y = x + 100; self.x = x;"])
+        return dict(text="class %s { init(x) { %s } get() { return self.x; } gety() { return self.y; } add(n) { return self.x + n; } }"
+                    % (k, init), decls=[k], refs=["Object"],
+                    funs=[(k + ".init", []), (k + ".get", []), (k + ".gety", []), (k + ".add", [])],
+                    script=["s:" + k, "g:Object", "g:" + k], calls=[])
 
     def s_inst(self):
         k = self.rng.choice(self.pclasses)
@@ -182,7 +197,8 @@ class Gen:
 
     def s_iprop(self):
         o, k = self.rng.choice(self.insts)
-        return dict(text="print(%s.x);" % o, decls=[], refs=["print", o], funs=[], script=["g:print", "g:" + o, "p"], calls=[])
+        return dict(text="print(%s.%s);" % (o, self.rng.choice("xy")), decls=[], refs=["print", o], funs=[],
+                    script=["g:print", "g:" + o, "p"], calls=[])
 
     def s_iset(self):
         o, k = self.rng.choice(self.insts)
@@ -194,14 +210,131 @@ class Gen:
         return dict(text="print(%s.get());" % o, decls=[], refs=["print", o], funs=[], script=["g:print", "g:" + o, "i"], calls=[k + ".get"])
 
     def s_samefn(self):
-        """a function WITH an inline-cache site, defined and called in the same entry, never again"""
+        """a function WITH an inline-cache site, defined and called in the same entry (and, now that D13
+        is repaired, again from later entries)"""
         o, k = self.rng.choice(self.insts)
         h = self.fresh("h")
         if self.rng.random() < 0.5:
+            self.sfns.append((h, "inst", []))
             return dict(text="fn %s(q) { return q.x; } print(%s(%s));" % (h, h, o), decls=[h], refs=["print", h, o],
                         funs=[(h, ["p"])], script=["s:" + h, "g:print", "g:" + h, "g:" + o], calls=[h])
+        self.sfns.append((h, "inst", [".get"]))
         return dict(text="fn %s(q) { return q.get(); } print(%s(%s));" % (h, h, o), decls=[h], refs=["print", h, o],
                     funs=[(h, ["i"])], script=["s:" + h, "g:print", "g:" + h, "g:" + o], calls=[h, k + ".get"])
+
+    # -- the former D13 signature: inline-cache sites inside code that outlives its entry ------------
+    INST_BODIES = [   # (body over the parameter q, sites in emission order, methods of q it calls)
+        ("return q.x;", ["p"], []),
+        ("return q.y;", ["p"], []),
+        ("return q.get();", ["i"], [".get"]),
+        ("return q.gety();", ["i"], [".gety"]),
+        ("return q.add(2);", ["p"], [".add"]),
+        ("q.x = q.x + 1; return q.x;", ["p", "p", "p"], []),
+        ("return q.get() + q.y;", ["i", "p"], [".get"]),
+        ("let a = q.y; let b = q.gety(); return a + b + q.add(1);", ["p", "i", "p"], [".gety", ".add"]),
+    ]
+    LIST_BODIES = [
+        ("return q[0];", ["i"], []),
+        ("let t = 0; for it in q { t = t + it; } return t;", ["i"], []),
+        ("return q[0] + q.len();", ["i", "i"], []),
+    ]
+
+    def sited_body(self):
+        kinds = (["inst"] * 3 if self.pclasses else []) + (["list"] if self.lists else [])
+        kind = self.rng.choice(kinds)
+        body, sites, callees = self.rng.choice(self.INST_BODIES if kind == "inst" else self.LIST_BODIES)
+        return kind, body, sites, callees
+
+    def s_sfn(self):
+        h = self.fresh("h")
+        kind, body, sites, callees = self.sited_body()
+        self.sfns.append((h, kind, callees))
+        return dict(text="fn %s(q) { %s }" % (h, body), decls=[h], refs=[], funs=[(h, sites)], script=["s:" + h], calls=[])
+
+    def s_sclass(self):
+        c = self.fresh("S")
+        k1, b1, s1, c1 = self.sited_body()
+        k2, b2, s2, c2 = self.sited_body()
+        self.sclasses.append((c, [("m", k1, c1), ("n", k2, c2)]))
+        return dict(text="class %s { m(q) { %s } n(q) { %s } }" % (c, b1, b2), decls=[c], refs=["Object"],
+                    funs=[(c + ".m", s1), (c + ".n", s2)], script=["s:" + c, "g:Object", "g:" + c], calls=[])
+
+    def s_smaker(self):
+        f = self.fresh("mk")
+        kind, body, sites, callees = self.sited_body()
+        self.smakers.append((f, kind, callees))
+        return dict(text="fn %s() { return |q| { %s }; }" % (f, body), decls=[f], refs=[],
+                    funs=[(f + ".l", sites), (f, [])], script=["s:" + f], calls=[])
+
+    def receiver(self, kind):
+        """(text, class or None) of a value a sited function of that kind accepts, or None"""
+        if kind == "inst" and self.insts:
+            return self.rng.choice(self.insts)
+        if kind == "list" and self.lists:
+            return (self.rng.choice(self.lists), None)
+        return None
+
+    def sited_call(self):
+        """(expression text, module names read in order, trailing sites of the script, functions that run) or None"""
+        rng = self.rng
+        pool = ([("fn", x) for x in self.sfns] + [("cls", x) for x in self.sclasses] + [("mk", x) for x in self.smakers])
+        rng.shuffle(pool)
+        for what, x in pool:
+            if what == "fn":
+                h, kind, callees = x
+                r = self.receiver(kind)
+                if r:
+                    return "%s(%s)" % (h, r[0]), [h, r[0]], [], [h] + [r[1] + c for c in callees if r[1]]
+            elif what == "cls":
+                c, methods = x
+                m, kind, callees = rng.choice(methods)
+                r = self.receiver(kind)
+                if r:
+                    return "%s().%s(%s)" % (c, m, r[0]), [c, r[0]], ["p"], [c + "." + m] + [r[1] + d for d in callees if r[1]]
+            else:
+                f, kind, callees = x
+                r = self.receiver(kind)
+                if r:
+                    return "%s()(%s)" % (f, r[0]), [f, r[0]], [], [f, f + ".l"] + [r[1] + c for c in callees if r[1]]
+        return None
+
+    def s_scall(self):
+        c = self.sited_call()
+        if c is None:
+            return self.s_print()
+        text, names, sites, runs = c
+        return dict(text="print(%s);" % text, decls=[], refs=["print"] + names, funs=[],
+                    script=["g:print"] + ["g:" + n for n in names] + sites, calls=runs)
+
+    def s_scall2(self):
+        """two calls of (possibly the same) sited functions in one statement"""
+        a, b = self.sited_call(), self.sited_call()
+        if a is None or b is None:
+            return self.s_print()
+        return dict(text="print(%s + %s);" % (a[0], b[0]), decls=[], refs=["print"] + a[1] + b[1], funs=[],
+                    script=["g:print"] + ["g:" + n for n in a[1]] + a[2] + ["g:" + n for n in b[1]] + b[2], calls=a[3] + b[3])
+
+    def s_swrap(self):
+        """a new function (with a site of its own) that calls a sited function of an earlier entry"""
+        cands = [x for x in self.sfns if x[1] == "inst"]
+        if not cands or not self.pclasses:
+            return self.s_sfn() if (self.pclasses or self.lists) else self.s_print()
+        g, _, callees = self.rng.choice(cands)
+        h = self.fresh("h")
+        self.sfns.append((h, "inst", callees))
+        self.callees = getattr(self, "callees", {})
+        self.callees[h] = [g]
+        return dict(text="fn %s(q) { return %s(q) + q.y; }" % (h, g), decls=[h], refs=[g], funs=[(h, ["g:" + g, "p"])],
+                    script=["s:" + h], calls=[])
+
+    def s_sclos(self):
+        """a closure with a site, created now, kept in a module variable and called from later entries"""
+        if not self.smakers:
+            return self.s_smaker() if (self.pclasses or self.lists) else self.s_print()
+        f, kind, callees = self.rng.choice(self.smakers)
+        c = self.fresh("c")
+        self.sfns.append((c, kind, callees))
+        return dict(text="let %s = %s();" % (c, f), decls=[c], refs=[f], funs=[], script=["g:" + f, "s:" + c], calls=[f])
 
     def s_nest(self):
         """a function (or method) whose body creates closures nested 2-3 levels deep that read (and
@@ -259,7 +392,16 @@ class Gen:
     # -- erroneous statements ---------------------------------------------------------------
     def bad(self):
         rng = self.rng
-        k = rng.choice(["syntax", "syntax2", "undeclared", "duplicate", "rt_prop", "rt_raise", "rt_let", "rt_call"])
+        k = rng.choice(["syntax", "syntax2", "undeclared", "duplicate", "rt_prop", "rt_raise", "rt_let", "rt_call", "rt_scall", "late"])
+        if k == "rt_scall" and self.sfns:
+            h = rng.choice(self.sfns)[0]     # the error is raised inside a sited function of an earlier entry
+            return dict(text="print(%s(nil));" % h, fail="runtime", decls=[], refs=["print", h], funs=[],
+                        script=["g:print", "g:" + h], calls=[h])
+        if k == "late" and rng.random() < 0.5:
+            # rejected by the compiler proper (256 locals) after the sites of the line's first function were numbered
+            z, big = self.fresh("z"), self.fresh("big")
+            return dict(text="fn %s(q) { return q.x + q.get(); } fn %s() { %s }" % (z, big, " ".join("let a%d = 0;" % i for i in range(256))),
+                        fail="late", decls=[z, big], refs=[], funs=[(z, ["p", "i"]), (big, [])], script=["s:" + z, "s:" + big], calls=[])
         if k == "syntax":
             e, refs = self.expr()
             return dict(text="print(%s" % e, fail="syntax", decls=[], refs=[], funs=[], script=[], calls=[])
@@ -287,6 +429,15 @@ def gen_session(rng):
     g = Gen(rng)
     n = rng.randint(3, 12)
     entries = []
+    if rng.random() < 0.6:
+        # profile "sited": receivers of several classes first, then mostly definitions and calls of
+        # functions / methods / closures that contain inline-cache sites, spread over many entries
+        g.bias = 4
+        for _ in range(rng.randint(1, 2)):
+            entries.append({"stmts": [g.s_pclass()]})
+        for _ in range(rng.randint(1, 3)):
+            entries.append({"stmts": [g.s_inst()] + ([g.s_list()] if rng.random() < 0.3 else [])})
+        n = rng.randint(4, 10)
     for _ in range(n):
         r = rng.random()
         if r < 0.22:
@@ -295,7 +446,7 @@ def gen_session(rng):
                 pre = [g.stmt() for _ in range(rng.randint(1, 2))]
                 post = [g.s_print()] if rng.random() < 0.5 else []
                 entries.append({"stmts": pre + [b] + post})
-            elif b["fail"] in ("syntax", "undeclared", "duplicate") and rng.random() < 0.4:
+            elif b["fail"] in ("syntax", "undeclared", "duplicate", "late") and rng.random() < 0.4:
                 # the whole line is rejected: statements before / after the bad one have no effect
                 snap = snapshot(g)
                 pre = [g.stmt()]
@@ -309,11 +460,12 @@ def gen_session(rng):
 
 
 def snapshot(g):
-    return (list(g.nums), list(g.fns), list(g.classes), list(g.pclasses), list(g.insts), list(g.lists))
+    return (list(g.nums), list(g.fns), list(g.classes), list(g.pclasses), list(g.insts), list(g.lists),
+            list(g.sfns), list(g.sclasses), list(g.smakers), list(getattr(g, "makers", [])))
 
 
 def restore(g, s):
-    g.nums, g.fns, g.classes, g.pclasses, g.insts, g.lists = [list(x) for x in s]
+    g.nums, g.fns, g.classes, g.pclasses, g.insts, g.lists, g.sfns, g.sclasses, g.smakers, g.makers = [list(x) for x in s]
 
 
 # ---------------------------------------------------------------------------------------------
@@ -323,12 +475,19 @@ def restore(g, s):
 def entry_fail(e):
     """None | 'compile' | ('runtime', index of the failing statement)"""
     for i, s in enumerate(e["stmts"]):
-        if s.get("fail") in ("syntax", "undeclared", "duplicate"):
+        if s.get("fail") in ("syntax", "undeclared", "duplicate", "late"):
             return "compile"
     for i, s in enumerate(e["stmts"]):
         if s.get("fail") == "runtime":
             return ("runtime", i)
     return None
+
+
+def entry_late(e):
+    """the entry passes the parser and the resolver and is rejected by the compiler proper: its
+    functions go through the encoder (and show up in the compile log) before the line is dropped"""
+    kinds = [s.get("fail") for s in e["stmts"]]
+    return "late" in kinds and not any(k in ("syntax", "undeclared", "duplicate") for k in kinds)
 
 
 def session_text(entries):
@@ -351,7 +510,7 @@ def model_lines(entries):
     ls = ["reset"]
     for e in entries:
         syntax_ok = not any(s.get("fail") == "syntax" for s in e["stmts"])
-        ls.append("entry %d" % (1 if syntax_ok else 0))
+        ls.append("entry %d %d" % (1 if syntax_ok else 0, 0 if entry_late(e) else 1))
         decls, refs, funs, script, calls = [], [], [], [], []
         f = entry_fail(e)
         for i, s in enumerate(e["stmts"]):
@@ -369,23 +528,6 @@ def model_lines(entries):
         ls.append("calls " + " ".join(calls))
         ls.append("end")
     return ls
-
-
-def d13_signature(entries):
-    """a function with an inline-cache site defined in one entry and called from a later one"""
-    sited = {}
-    for i, e in enumerate(entries):
-        if entry_fail(e) == "compile":
-            continue
-        for s in e["stmts"]:
-            for name, ops in s["funs"]:
-                if any(o in ("p", "i") for o in ops):
-                    sited[name] = i
-        for s in e["stmts"]:
-            for c in s["calls"]:
-                if c in sited and sited[c] < i:
-                    return True
-    return False
 
 
 def strip_prompts(s):
@@ -437,9 +579,9 @@ def run_repl_batch(files):
     return res
 
 
-def model_run(sessions, persistent=False):
+def model_run(sessions):
     lines = [l for s in sessions for l in model_lines(s)]
-    rc, out, err = common.run_lines([DRV] + (["persistent"] if persistent else []), lines, timeout=1200)
+    rc, out, err = common.run_lines([DRV], lines, timeout=1200)
     res, pos = [], 0
     for s in sessions:
         res.append(out[pos:pos + len(s)])
@@ -447,11 +589,57 @@ def model_run(sessions, persistent=False):
     return res
 
 
-def impl_entry_lines(rec):
-    """the implementation's compile log in the model's vocabulary: one string per compiled entry"""
+_LEN = {}
+
+
+def instruction_lengths():
+    """`SymbolicByteCode::len` read from the repo's byte_code.rs: instruction name -> encoded length"""
+    if not _LEN:
+        src = open(os.path.join(common.REPO, "laythe_vm", "src", "byte_code.rs")).read()
+        m = re.search(r"impl SymbolicByteCode \{.*?pub const fn len\(&self\) -> usize \{\s*match self \{(.*?)\n    \}", src, re.S)
+        if not m:
+            raise RuntimeError("byte_code.rs: SymbolicByteCode::len not understood")
+        for name, n in re.findall(r"Self::(\w+)(?:\([^=]*\))?\s*=>\s*(\d+),", m.group(1)):
+            _LEN[name] = int(n)
+        if _LEN.get("PropertySlot") != 4 or _LEN.get("InvokeSlot") != 4 or len(_LEN) < 60:
+            raise RuntimeError("byte_code.rs: SymbolicByteCode::len not understood (%d arms)" % len(_LEN))
+    return _LEN
+
+
+def site_ids(fun):
+    """the inline-cache sites of one compiled function with the ids the encoder wrote after them
+    (`op_property_slot` / `op_invoke_slot`: the u32 in native byte order): ['P3', 'I0', ..]"""
+    lens = instruction_lengths()
+    code = bytes.fromhex(fun.get("code", ""))
+    out, off = [], 0
+    for name in [x for x in fun.get("post", "").split(",") if x]:
+        if name not in lens:
+            return ["?unknown instruction %s" % name]
+        if name in ("PropertySlot", "InvokeSlot"):
+            if off + 4 > len(code):
+                return ["?code too short"]
+            out.append("%s%d" % ("P" if name == "PropertySlot" else "I", int.from_bytes(code[off:off + 4], sys.byteorder)))
+        off += lens[name]
+    if off != len(code):
+        return ["?decoded %d of %d bytes" % (off, len(code))]
+    if [x[0] for x in out] != [x for x in fun.get("sites", "").split(",") if x]:
+        return ["?sites %s" % fun.get("sites")]
+    return out
+
+
+def impl_entry_lines(rec, entries=None):
+    """the implementation's compile log in the model's vocabulary: one string per compiled entry
+    (`syms|sites with ids` per function, the script last).  With `entries`, the log records of the
+    entries the compiler proper rejected are dropped (they were encoded, then discarded)."""
     out = []
-    for ent in rec.get("entries", []):
-        out.append(";".join("%s|%s" % (f["syms"], ",".join(x for x in f["sites"].split(",") if x)) for f in ent))
+    logged = rec.get("entries", [])
+    keep = [True] * len(logged)
+    if entries is not None:
+        reach = [entry_late(e) for e in entries if entry_fail(e) != "compile" or entry_late(e)]
+        keep = [not late for late in reach] + [True] * max(0, len(logged) - len(reach))
+    for ent, k in zip(logged, keep):
+        if k:
+            out.append(";".join("%s|%s" % (f["syms"], ",".join(site_ids(f))) for f in ent))
     return out
 
 
@@ -464,7 +652,7 @@ def model_entry_lines(mlines):
             funs = []
             for f in parts[1].split(";"):
                 name, syms, sites = f.split(":")
-                funs.append("%s|%s" % (syms, ",".join(x[0] for x in sites.split(",") if x)))
+                funs.append("%s|%s" % (syms, ",".join(x for x in sites.split(",") if x)))
             comp.append(";".join(funs))
             status.append("ok")
             ft = parts[3][len("faults="):]
@@ -475,11 +663,11 @@ def model_entry_lines(mlines):
     return comp, status, faults
 
 
-def judge(entries, rrec, crec, mlines):
+def judge(entries, rrec, crec, mlines, expected_stdout=None):
     """Returns (kind, message) or None.  rrec: REPL record, crec: concatenation record."""
     fails = [entry_fail(e) for e in entries]
     n_rt = sum(1 for f in fails if isinstance(f, tuple))
-    n_ce = sum(1 for f in fails if f == "compile")
+    n_ce = sum(1 for f, e in zip(fails, entries) if f == "compile" and not entry_late(e))   # never reach the encoder
     rout = strip_prompts(rrec.get("stdout", ""))
     cout = crec.get("stdout", "")
     rst = rrec.get("status", "?")
@@ -498,13 +686,15 @@ def judge(entries, rrec, crec, mlines):
     if ncomp != len(entries) - n_ce:
         return "spec", "%d entries reached the compiler, %d should have (an entry was rejected or accepted unexpectedly; stderr %r)" % (
             ncomp, len(entries) - n_ce, err[-300:])
+    if expected_stdout is not None and rout != expected_stdout:
+        return "spec", "the session prints %r, expected %r" % (rout, expected_stdout)
     comp, status, faults = model_entry_lines(mlines)
     if faults:
-        return "generator", "the generated session has the D13 signature: %s" % faults
+        return "tie", "the model reports out-of-range cache accesses (C19_cache_slots_in_range says it cannot): %s" % faults
     exp_status = ["ok" if f != "compile" else "err" for f in fails]
     if [s[:3].rstrip(":") for s in status] != exp_status:
         return "tie", "model entry statuses %r, expected %r" % (status, exp_status)
-    ic = impl_entry_lines(rrec)
+    ic = impl_entry_lines(rrec, entries)
     if comp != ic:
         k = next((i for i in range(min(len(comp), len(ic))) if comp[i] != ic[i]), min(len(comp), len(ic)))
         return "tie", "compiled entry %d: model %r / implementation %r" % (k, comp[k:k + 1], ic[k:k + 1])
@@ -585,57 +775,81 @@ def payload(entries, rrec, crec, mlines, kind, msg, seed):
     return {"engine": "repl", "kind": {"spec": "implementation-vs-spec", "tie": "model-vs-implementation"}.get(kind, kind),
             "what": msg, "seed": seed, "session": entries, "session_text": session_text(entries), "concatenation": concat_text(entries),
             "repl": {"status": rrec.get("status"), "stdout": strip_prompts(rrec.get("stdout", "")), "stderr": rrec.get("stderr", "")[-800:],
-                     "compile_log": impl_entry_lines(rrec)},
+                     "compile_log": impl_entry_lines(rrec, entries)},
             "file": {"status": crec.get("status"), "stdout": crec.get("stdout"), "stderr": crec.get("stderr", "")[-400:]},
             "model": mlines, "replay": "./check C19 --replay <this file>"}
 
 
 def stream_sessions(ctx, n, workdir, label="sessions", seed_mul=7919, search=False):
     rng = random.Random(ctx.seed * seed_mul + 19)
-    sessions = []
+    sessions, expected = [], {}
     if not search:
         corpus = os.path.join(common.VERIF, "corpus", "C19")
         if os.path.isdir(corpus):
             for f in sorted(os.listdir(corpus)):
-                sessions.append(json.load(open(os.path.join(corpus, f)))["session"])
+                c = json.load(open(os.path.join(corpus, f)))
+                if "expected_stdout" in c:
+                    expected[len(sessions)] = c["expected_stdout"]
+                sessions.append(c["session"])
     ncorpus = len(sessions)
     while len(sessions) < n + ncorpus:
         s = gen_session(rng)
-        if d13_signature(s) or not well_scoped(s):
+        if not well_scoped(s):
             ctx.stream_stat(label, generator_rejects=1)
             continue
         sessions.append(s)
-    stats = {"sessions": 0, "entries": 0, "statements": 0, "compile_error_entries": 0, "runtime_error_entries": 0,
-             "calls_into_earlier_entries": 0, "sites_top_level": 0, "functions_with_sites_same_entry": 0, "definitions": 0,
-             "output_lines": 0}
+    stats = {"sessions": 0, "entries": 0, "statements": 0, "compile_error_entries": 0, "compiler_proper_error_entries": 0,
+             "runtime_error_entries": 0, "calls_into_earlier_entries": 0, "sites_top_level": 0, "functions_with_sites": 0,
+             "calls_of_sited_functions_from_later_entries": 0, "sessions_calling_sited_functions_from_later_entries": 0,
+             "sited_calls_after_a_failed_entry": 0, "max_entries_between_definition_and_call": 0,
+             "sessions_sites_in_3_or_more_entries": 0, "definitions": 0, "output_lines": 0}
     first = None
     CH = 300
     for off in range(0, len(sessions), CH):
         chunk = sessions[off:off + CH]
         rrecs, crecs, models = run_sessions(chunk, workdir, base=0)
-        for s, rr, cr, ml in zip(chunk, rrecs, crecs, models):
+        for k, (s, rr, cr, ml) in enumerate(zip(chunk, rrecs, crecs, models)):
             stats["sessions"] += 1
             stats["entries"] += len(s)
-            defined_in = {}
-            later_calls = 0
+            defined_in, sited = {}, set()
+            later_calls = later_sited = entries_with_sites = 0
+            failed_before = False
             for i, e in enumerate(s):
                 f = entry_fail(e)
                 stats["compile_error_entries"] += f == "compile"
+                stats["compiler_proper_error_entries"] += entry_late(e)
                 stats["runtime_error_entries"] += isinstance(f, tuple)
-                for st in e["stmts"]:
+                has_site = False
+                for j, st in enumerate(e["stmts"]):
                     stats["statements"] += 1
                     stats["definitions"] += len(st["decls"])
                     stats["sites_top_level"] += sum(1 for o in st["script"] if o in ("p", "i"))
-                    stats["functions_with_sites_same_entry"] += sum(1 for _, ops in st["funs"] if any(o in ("p", "i") for o in ops))
-                    if f != "compile":
-                        for name, _ in st["funs"]:
+                    stats["functions_with_sites"] += sum(1 for _, ops in st["funs"] if any(o in ("p", "i") for o in ops))
+                    if f != "compile" and not (isinstance(f, tuple) and j > f[1]):
+                        has_site = has_site or any(o in ("p", "i") for o in st["script"]) or any(
+                            o in ("p", "i") for _, ops in st["funs"] for o in ops)
+                        for name, ops in st["funs"]:
                             defined_in[name] = i
-                        later_calls += sum(1 for c in st["calls"] if defined_in.get(c, i) < i)
+                            if any(o in ("p", "i") for o in ops):
+                                sited.add(name)
+                        for c in st["calls"]:
+                            if defined_in.get(c, i) < i:
+                                later_calls += 1
+                                if c in sited:
+                                    later_sited += 1
+                                    stats["sited_calls_after_a_failed_entry"] += failed_before
+                                    stats["max_entries_between_definition_and_call"] = max(
+                                        stats["max_entries_between_definition_and_call"], i - defined_in[c])
+                entries_with_sites += has_site
+                failed_before = failed_before or f is not None
             stats["calls_into_earlier_entries"] += later_calls
+            stats["calls_of_sited_functions_from_later_entries"] += later_sited
+            stats["sessions_calling_sited_functions_from_later_entries"] += later_sited > 0
+            stats["sessions_sites_in_3_or_more_entries"] += entries_with_sites >= 3
             stats["output_lines"] += cr.get("stdout", "").count("\n")
-            ctx.count_case(session_text(s), nontrivial=later_calls > 0 and any(entry_fail(e) for e in s))
+            ctx.count_case(session_text(s), nontrivial=later_sited > 0 and any(entry_fail(e) for e in s))
             if first is None:
-                j = judge(s, rr, cr, ml)
+                j = judge(s, rr, cr, ml, expected.get(off + k))
                 if j:
                     first = (s, rr, cr, ml, j)
         if first:
@@ -658,29 +872,6 @@ def stream_sessions(ctx, n, workdir, label="sessions", seed_mul=7919, search=Fal
     r, c, m = run_sessions([small], workdir, base=10 ** 6)
     j2 = judge(small, r[0], c[0], m[0]) or (kind, msg)
     return False, (j2[0], payload(small, r[0], c[0], m[0], j2[0], j2[1], ctx.seed))
-
-
-def replay_known(ctx, workdir):
-    """D13: replay the committed session; still asserting / diverging -> KNOWN-FINDING line."""
-    sfile = os.path.join(KF_DIR, "session.txt")
-    if not os.path.exists(sfile):
-        return
-    finding = next((f for f in common.load_findings(PROP) if f["id"] == KF_ID), None)
-    entries = json.load(open(os.path.join(KF_DIR, "session.json")))
-    rr = run_repl_batch([sfile])[0]
-    cf = os.path.join(workdir, "d13_concat.lay")
-    open(cf, "w").write(concat_text(entries))
-    cr = common.run_batch([cf])[0]
-    pinned = model_run([entries])[0]
-    repaired = model_run([entries], persistent=True)[0]
-    rout = strip_prompts(rr.get("stdout", ""))
-    ctx.cov["D13_witness"] = {"repl_status": rr.get("status"), "repl_stdout": rout, "file_stdout": cr.get("stdout"),
-                              "model_pinned": pinned, "model_repaired": repaired}
-    if rr.get("status") in ("Ok:0", "PANIC:Not enough test lines") and rout == cr.get("stdout"):
-        ctx.cov["D13_witness"]["note"] = "witness passes: the session prints what the file prints (finding no longer reproduces)"
-        return
-    if finding:
-        ctx.known(KF_ID, finding["what"])
 
 
 def report(ctx, kind, pl, workdir, n):
@@ -709,12 +900,16 @@ def run(ctx):
         return
     workdir = os.path.join(common.VERIF, "work", "c19_%d" % os.getpid())
     os.makedirs(workdir, exist_ok=True)
-    ctx.cov["rule"] = ("random REPL sessions of 3-12 entries (1-3 statements each): number lets, assignments, plain functions (calling "
-                       "earlier functions, reading earlier lets), classes with methods, classes with init/fields, instances, lists, "
-                       "top-level property / method / index / for sites on earlier objects, functions with inline-cache sites defined "
-                       "and called inside one entry; ~22% erroneous entries (syntax error, undeclared name, re-declaration, runtime "
-                       "error after a prefix that ran, half-declared let).  The D13 signature is excluded.  non-trivial = some entry "
-                       "calls a function defined by an earlier entry and some entry fails; distinct by session text")
+    ctx.cov["rule"] = ("random REPL sessions of 3-15 entries (1-3 statements each): number lets, assignments, plain functions (calling "
+                       "earlier functions, reading earlier lets), classes with methods, classes with init/fields (two field layouts), "
+                       "instances, lists, top-level property / method / index / for sites on earlier objects; functions, methods, "
+                       "closure makers and stored closures that contain inline-cache sites (get / set / invoke / call-with-argument / "
+                       "index / for-in), defined by one entry and called with receivers of different classes from later entries, "
+                       "directly, two per statement, and through later-defined wrapper functions (60% of the sessions are biased "
+                       "towards these); ~22% erroneous entries (syntax error, undeclared name, re-declaration, rejected by the "
+                       "compiler proper after its sites were numbered, runtime error after a prefix that ran, runtime error inside "
+                       "an earlier sited function, half-declared let).  non-trivial = some entry calls a function with an "
+                       "inline-cache site defined by an earlier entry and some entry fails; distinct by session text")
     try:
         n = ctx.n(3000, 30000)
         if not proved:
@@ -731,13 +926,13 @@ def run(ctx):
         ok, found = stream_sessions(ctx, n, workdir)
         if not ok:
             report(ctx, found[0], found[1], workdir, n)
-        replay_known(ctx, workdir)
     finally:
         shutil.rmtree(workdir, ignore_errors=True)
     ctx.assumptions += [
         "the REPL compile model (Model/Repl.lean) is hand-written from resolver.rs / compiler/mod.rs / source_loader.rs; agreement on slots and cache sites is checked on the sessions stream, not proved",
         "the Spec is the implementation's own `run` on the concatenation (DESIGN.md §5 C19); that `run` itself is right is the subject of C01-C04",
-        "the numbering of cache ids (restart per compile) is tied to the code through the D13 witness only: the compile log shows sites, not ids",
+        "cache ids are tied to the code by reading them back from the encoded bytes of the compile log (instruction lengths parsed from SymbolicByteCode::len); the LENGTHS of the module's cache vectors are not observable through a hook: that ids stay below them is observed only as the absence of the debug assertion in cache.rs (the harness is built with debug assertions) and proved on the model (C19_cache_slots_in_range)",
+        "that a slot keeps its cached state across entries (InlineCache::grow keeps the prefix) is not modelled; it is exercised by calling the same site with receivers of alternating classes from different entries",
         "entries are single lines; `Vm::repl` reads one line per entry",
     ]
 
@@ -745,19 +940,20 @@ def run(ctx):
 def replay(path):
     r = json.load(open(path))
     s = r["session"]
+    exp = r.get("expected_stdout")
     common.cargo_build()
     common.cargo_build(bin="vh_repl")
     common.lake_build(["drv_repl"])
     workdir = os.path.join(common.VERIF, "work", "c19_replay_%d" % os.getpid())
     try:
         rr, cr, ml = run_sessions([s], workdir)
-        j = judge(s, rr[0], cr[0], ml[0])
+        j = judge(s, rr[0], cr[0], ml[0], exp)
     finally:
         shutil.rmtree(workdir, ignore_errors=True)
     print("session:\n" + session_text(s))
     print("repl  :", rr[0].get("status"), repr(strip_prompts(rr[0].get("stdout", ""))))
     print("file  :", cr[0].get("status"), repr(cr[0].get("stdout")))
     print("model :", ml[0])
-    print("impl  :", impl_entry_lines(rr[0]))
+    print("impl  :", impl_entry_lines(rr[0], s))
     print("verdict:", j)
     return 1 if j else 0
